@@ -12,6 +12,7 @@ package lib
 //                         registrant's address set, and the covert-dial error path.
 
 import (
+	"runtime/debug"
 	"bytes"
 	"encoding/json"
 	"fmt"
@@ -102,6 +103,7 @@ func vtlRunIngest(idx int, cs vtlCase) map[string]any {
 	defer func() {
 		if r := recover(); r != nil {
 			res["panic"] = fmt.Sprint(r)
+				res["panic_stack"] = string(debug.Stack())
 		}
 	}()
 	ibuf := &vrlSyncBuf{}
